@@ -26,7 +26,7 @@ def combine(a, b):
     return (a * 31 + b) % MOD
 
 
-def regen_stages(ctx, pipe=True, fork=False, sources=False, text=False):
+def regen_stages(ctx, pipe=True, fork=False, sources=False, text=False, cfg=False):
     """T tie for the consumer stages: regenerate Gen/PipeStages.lean / Gen/ForkStages.lean from the working tree
     (go/xlate family `stages`); a stage outside the translatable fragment is listed in `rejected` and the
     `*_gen` theorems that mention it then fail to elaborate (reported by ctx.prove as broken obligations)."""
@@ -43,8 +43,10 @@ def regen_stages(ctx, pipe=True, fork=False, sources=False, text=False):
             ctx.cov.setdefault("translator_rejected", []).extend(rej)
             for r in rej:
                 ctx.note("stages translator: outside the fragment: " + r)
+    if cfg:
+        ctx.xlate("cfg", "PipeNewCFG.lean", ["pipe/unbound.go"])
     if text:
-        ctx.xlate("gotext", "PipeText.lean", ["pipe/unbound.go", "pipe/queue.go", "pipe/pipe.go"])
+        ctx.xlate("gotext", "PipeText.lean", ["pipe/queue.go", "pipe/pipe.go"])
 
 
 def build(ctx, race=False):
